@@ -395,6 +395,7 @@ func genC05(tier string, r *core.Rand) PeerPlan {
 	}
 	p.PM = r.Chance(0.3)
 	p.DupFirst = r.Chance(0.15)
+	p.DupSrc, p.DupPos = r.Intn(4), r.Intn(4)
 	p.BlockSize = r.Pick(0, 1, 1, 1, 1, 6)
 	switch r.Pick(3, 2, 2, 2) {
 	case 0:
